@@ -611,6 +611,10 @@ impl Tracer {
                 }
                 Some(StopReason::SignalStop(_, signal)) => {
                     if QUIET_SIGNALS.contains(&signal) {
+                        // the signal is delivered right now, together with the step request,
+                        // so it must not be injected once more from the queue at next resume
+                        // (`apply_new_status` has just queued it)
+                        self.inject_signal_queue.pop_back();
                         self.tracee_ctl.tracee_ensure(pid).step(Some(signal))?;
                         continue;
                     }
